@@ -186,6 +186,14 @@ func runFault(c FaultCase, model *Model, lens []int, off int, fk faultKind, late
 	}
 	a := off
 	b := tr.BeforeFault
+	if fk.resume {
+		// The transport went on delivering after the fault (as a connection does
+		// after a timeout): what "had arrived" when a message was reported is
+		// bounded by everything the transport delivered during the run.  (An
+		// error returned together with the last bytes of a region the library
+		// was skipping is not observable by it once the transport recovers.)
+		a = tr.TotalIn
+	}
 	minMsgs, maxMsgs := countInside(model, b), countInside(model, a)
 
 	// Count messages obtained; verify content of each.
